@@ -20,7 +20,7 @@ import (
 )
 
 var grpBytes = map[string]string{
-	"ascii": "a", "two": "\xc3\xa9", "three": "\xe2\x82\xac", "trunc": "\xc3", "cont": "\xa9",
+	"ascii": "a", "two": "\xc3\xa9", "three": "\xe2\x82\xac", "fffd": "\xef\xbf\xbd", "trunc": "\xc3", "cont": "\xa9",
 	"overlong": "\xc0\xaf", "surrogate": "\xed\xa0\x80", "ff": "\xff",
 }
 
@@ -218,6 +218,8 @@ func init() {
 					p = filepath.Join(sub, "file", "key.pem")
 				case "missingdir":
 					p = filepath.Join(sub, "no-such-dir", "key.pem")
+				case "danglinglink":
+					_ = os.Symlink(filepath.Join(sub, "no-such-dir", "target.pem"), p)
 				}
 				load := func() map[string]any {
 					k, err := keyfile.OpenOrWritePrivKey(nil, p)
